@@ -21,6 +21,8 @@ for _f in sorted(glob.glob(os.path.join(_HERE, "core_kinds*.json"))):
 
 
 def _classify(kind):
+    if kind > 100000000:
+        return {"class": "info", "props": ["*"], "what": {100000001: "steps_validated_by_model", 100000002: "steps_total"}.get(kind, "info")}
     p = "C%02d" % (kind // 100)
     sub = kind % 100
     what = WHAT.get(kind, "core oracle kind %d" % kind)
